@@ -46,6 +46,7 @@ type Contract struct {
 	NoInline  bool
 	Lemma     bool
 	Uses      []string
+	ParamSorts []string
 }
 
 type GhostDecl struct {
@@ -54,7 +55,15 @@ type GhostDecl struct {
 	Pkg  string
 }
 
+type Invariant struct {
+	Name string
+	Pkg  string
+	Text string
+	Expr *Expr
+}
+
 type ContractFile struct {
+	Invariants []*Invariant
 	Path      string
 	Pkg       string
 	Contracts []*Contract
@@ -62,7 +71,7 @@ type ContractFile struct {
 	Preludes  []string // names of prelude files this package's contracts need
 }
 
-var kwRe = regexp.MustCompile(`^(requires|ensures|modifies|panics|may_panic|loop|mode|extern|assumed|pure|props|noinline|uses|iface)\b`)
+var kwRe = regexp.MustCompile(`^(requires|ensures|modifies|panics|may_panic|loop|mode|extern|assumed|pure|props|noinline|uses|iface|hint|trigger)\b`)
 
 // parseContractFile reads //@ lines. pkgPath is the import path the file belongs to
 // (can be overridden by a `//@ package <path>` line for extern contract files).
@@ -74,7 +83,9 @@ func parseContractFile(path, pkgPath string) (*ContractFile, error) {
 	cf := &ContractFile{Path: path, Pkg: pkgPath}
 	var cur *Contract
 	var last *Clause
+	var lastInv *Invariant
 	flush := func() {
+		lastInv = nil
 		if cur != nil {
 			cf.Contracts = append(cf.Contracts, cur)
 		}
@@ -103,6 +114,17 @@ func parseContractFile(path, pkgPath string) (*ContractFile, error) {
 		case strings.HasPrefix(text, "prelude "):
 			cf.Preludes = append(cf.Preludes, strings.Fields(text)[1:]...)
 			continue
+		case strings.HasPrefix(text, "invariant "):
+			flush()
+			rest := strings.TrimSpace(strings.TrimPrefix(text, "invariant "))
+			ci := strings.Index(rest, ":")
+			if ci < 0 {
+				return nil, fmt.Errorf("%s:%d: invariant name: expr", path, ln+1)
+			}
+			inv := &Invariant{Name: strings.TrimSpace(rest[:ci]), Pkg: cf.Pkg, Text: strings.TrimSpace(rest[ci+1:])}
+			cf.Invariants = append(cf.Invariants, inv)
+			lastInv = inv
+			continue
 		case strings.HasPrefix(text, "ghost "):
 			flush()
 			rest := strings.TrimSpace(strings.TrimPrefix(text, "ghost "))
@@ -111,6 +133,15 @@ func parseContractFile(path, pkgPath string) (*ContractFile, error) {
 				return nil, fmt.Errorf("%s:%d: ghost needs a sort", path, ln+1)
 			}
 			cf.Ghosts = append(cf.Ghosts, GhostDecl{Name: rest[:sp], Sort: strings.TrimSpace(rest[sp:]), Pkg: cf.Pkg})
+			continue
+		case strings.HasPrefix(text, "lemma "):
+			flush()
+			c := &Contract{Pkg: cf.Pkg, File: path, Line: ln + 1, Lemma: true}
+			if err := parseHeader(c, "func "+strings.TrimPrefix(text, "lemma ")); err != nil {
+				return nil, fmt.Errorf("%s:%d: %v", path, ln+1, err)
+			}
+			c.Key = "lemma." + c.Key[strings.LastIndex(c.Key, ".")+1:]
+			cur = c
 			continue
 		case strings.HasPrefix(text, "func ") || strings.HasPrefix(text, "extern func ") || strings.HasPrefix(text, "assumed func ") || strings.HasPrefix(text, "iface func "):
 			flush()
@@ -132,6 +163,10 @@ func parseContractFile(path, pkgPath string) (*ContractFile, error) {
 				return nil, fmt.Errorf("%s:%d: %v", path, ln+1, err)
 			}
 			cur = c
+			continue
+		}
+		if cur == nil && lastInv != nil && !kwRe.MatchString(text) {
+			lastInv.Text += " " + text
 			continue
 		}
 		if cur == nil {
@@ -216,6 +251,13 @@ func parseContractFile(path, pkgPath string) (*ContractFile, error) {
 		}
 	}
 	flush()
+	for _, inv := range cf.Invariants {
+		e, err := parseSpec(inv.Text)
+		if err != nil {
+			return nil, fmt.Errorf("%s: invariant %s: %v", path, inv.Name, err)
+		}
+		inv.Expr = e
+	}
 	// parse expressions
 	for _, c := range cf.Contracts {
 		for _, cl := range c.Clauses {
@@ -311,12 +353,18 @@ func parseHeader(c *Contract, text string) error {
 	c.Key = strings.Replace(key, repoMod+"/", "", -1)
 	n := 0
 	for _, p := range fd.Type.Params.List {
+		ts := ""
+		if id, ok := p.Type.(*ast.Ident); ok {
+			ts = id.Name
+		}
 		if len(p.Names) == 0 {
 			c.Params = append(c.Params, fmt.Sprintf("_p%d", n))
+			c.ParamSorts = append(c.ParamSorts, ts)
 			n++
 		}
 		for _, nm := range p.Names {
 			c.Params = append(c.Params, nm.Name)
+			c.ParamSorts = append(c.ParamSorts, ts)
 			n++
 		}
 	}
@@ -372,6 +420,16 @@ func loadContracts(repo, specDir string) (map[string]*Contract, []GhostDecl, []*
 	})
 	if err != nil {
 		return nil, nil, nil, err
+	}
+	lf, _ := filepath.Glob(filepath.Join(specDir, "lemmas", "*.txt"))
+	for _, p := range lf {
+		cf, err := parseContractFile(p, "")
+		if err != nil {
+			return nil, nil, nil, err
+		}
+		if err := add(cf); err != nil {
+			return nil, nil, nil, err
+		}
 	}
 	ex, _ := filepath.Glob(filepath.Join(specDir, "extern", "*.go.txt"))
 	for _, p := range ex {
